@@ -1018,9 +1018,9 @@ impl Parser {
             }
             
             if let TokenKind::Diacritic(_) = self.curr_tkn.kind {
-                match inp_term.last() {
-                    Some(Item { kind: _, position }) => return Err(RuleSyntaxError::UnexpectedDiacritic(*position, self.curr_tkn.position)),
-                    _ => { unreachable!(); }
+                // after an empty term there is no element the diacritic could belong to: the stray token is reported below
+                if let Some(Item { kind: _, position }) = inp_term.last() {
+                    return Err(RuleSyntaxError::UnexpectedDiacritic(*position, self.curr_tkn.position))
                 }
             }
 
@@ -1065,9 +1065,9 @@ impl Parser {
             }
 
             if let TokenKind::Diacritic(_) = self.curr_tkn.kind {
-                match out_term.last() {
-                    Some(Item { kind: _, position }) => return Err(RuleSyntaxError::UnexpectedDiacritic(*position, self.curr_tkn.position)),
-                    _ => { unreachable!(); }
+                // after an empty term there is no element the diacritic could belong to: the stray token is reported below
+                if let Some(Item { kind: _, position }) = out_term.last() {
+                    return Err(RuleSyntaxError::UnexpectedDiacritic(*position, self.curr_tkn.position))
                 }
             }
 
